@@ -140,8 +140,27 @@ func c12JQ(r *fw.Run, p *fw.Program) {
 // C12.jqkeys
 
 func c12JQKeys(r *fw.Run, jq *fw.JQ) {
-	ru := r.Rule("C12.jqkeys", "the jq navigation functions read the extkey of the same meaning: topath->._path, root->._root, buffer_root->._buffer_root, format_root->._format_root, parent->._parent, parents iterates ._parent only", 6)
+	ru := r.Rule("C12.jqkeys", "the jq navigation functions read the extkey of the same meaning: topath->._path, root->._root, buffer_root->._buffer_root, format_root->._format_root, parent->._parent, parents iterates ._parent only; _decode_value(f) evaluates f on decode values (and the error branch otherwise)", 8)
 	const file = "pkg/interp/decode.jq"
+	// the wrapper all of them go through
+	if d := jq.Def(file, "_decode_value", 2); d == nil || len(d.Def.Args) != 2 {
+		ru.Undecided("def:_decode_value/2", file, "def _decode_value/2 not found")
+	} else {
+		b := c12Unparen(d.Def.Body)
+		good := b.Term != nil && b.Left == nil && b.Term.Type == gojq.TermTypeIf && b.Term.If != nil && len(b.Term.SuffixList) == 0
+		if good {
+			i := b.Term.If
+			good = fw.JQIsCall(i.Cond, "_is_decode_value", 0) != nil && len(i.Elif) == 0 &&
+				fw.JQIsCall(i.Then, d.Def.Args[0], 0) != nil && fw.JQIsCall(i.Else, d.Def.Args[1], 0) != nil
+		}
+		ru.Check(good, "def:_decode_value/2", file, "if _is_decode_value then f else ef", "_decode_value(f; ef) is not `if _is_decode_value then f else ef end` (first argument on decode values): "+fw.JQStr(d.Def.Body))
+	}
+	if d := jq.Def(file, "_decode_value", 1); d == nil || len(d.Def.Args) != 1 {
+		ru.Undecided("def:_decode_value/1", file, "def _decode_value/1 not found")
+	} else {
+		call := fw.JQIsCall(d.Def.Body, "_decode_value", 2)
+		ru.Check(call != nil && fw.JQIsCall(call.Args[0], d.Def.Args[0], 0) != nil, "def:_decode_value/1", file, "passes its argument as the decode-value branch", "_decode_value(f) does not pass f as the first argument of _decode_value/2: "+fw.JQStr(d.Def.Body))
+	}
 	for _, w := range [][2]string{{"topath", "_path"}, {"root", "_root"}, {"buffer_root", "_buffer_root"}, {"format_root", "_format_root"}, {"parent", "_parent"}} {
 		d := jq.Def(file, w[0], 0)
 		if d == nil {
@@ -322,7 +341,7 @@ func c12IdentRegex(re *syntax.Regexp) string {
 // C12.expr
 
 func c12Expr(r *fw.Run, jq *fw.JQ) {
-	ru := r.Rule("C12.expr", "_path_to_expr emits [n] for numbers and .key for keys, unquoted only when _is_ident, otherwise \"…\" through _escape_ident, joined without separator, with a leading . for paths starting with an index; _expr_to_path evaluates null | path(EXPR); public wrappers call them", 10)
+	ru := r.Rule("C12.expr", "_path_to_expr emits [n] for numbers and .key for keys, unquoted only when _is_ident, otherwise \"…\" through _escape_ident, joined without separator, with a leading . for paths starting with an index; _expr_to_path evaluates null | path(EXPR); public wrappers call them; the stages are exactly placeholder | map | join, _path_to_expr/0 asks for no colour and _ansi_if is the identity then; _is_number/_is_string test the type they name", 16)
 	const file = "pkg/interp/internal.jq"
 	d := jq.Def(file, "_path_to_expr", 1)
 	if d == nil {
@@ -337,6 +356,23 @@ func c12Expr(r *fw.Run, jq *fw.JQ) {
 			sep, isConst = fw.JQConstString(j.Args[0])
 		}
 		ru.Check(j != nil && isConst && sep == "", "_path_to_expr:join", file, "components are joined with the empty string", "components are not joined with \"\": "+fw.JQStr(last))
+		// nothing else touches the component list or the result
+		{
+			extra := ""
+			if len(pipe) != 3 {
+				for i, st := range pipe {
+					u := c12Unparen(st)
+					isIf := u.Term != nil && u.Term.Type == gojq.TermTypeIf && u.Left == nil
+					if !isIf && fw.JQIsCall(st, "map", 1) == nil && !(i == len(pipe)-1 && fw.JQIsCall(st, "join", 1) != nil) && !c12IsIdentity(st) {
+						extra = fw.JQStr(st)
+					}
+				}
+				if extra == "" {
+					extra = "a repeated stage"
+				}
+			}
+			ru.Check(extra == "", "_path_to_expr:stages", file, "stages are placeholder | map(component) | join", "_path_to_expr has the extra stage `"+extra+"` between placeholder, map and join: components or the joined expression are altered")
+		}
 		// leading placeholder for paths that do not start with a key
 		var prefixIf *gojq.If
 		var numIf *gojq.If
@@ -363,9 +399,13 @@ func c12Expr(r *fw.Run, jq *fw.JQ) {
 			ors := c12Flatten(prefixIf.Cond, gojq.OpOr)
 			condOK := false
 			for _, o := range ors {
-				s := fw.JQStr(o)
-				if strings.Contains(s, "type") && strings.Contains(s, `!= "string"`) && strings.Contains(s, ".[0]") {
+				switch {
+				case c12HeadNotString(o):
 					condOK = true
+				case c12EmptyPathTest(o):
+				default:
+					// any other disjunct adds the placeholder in front of a key; a conjunction would withhold it
+					good = false
 				}
 			}
 			ru.Check(good && condOK, "_path_to_expr:leading", file, "[null] (not a possible key) is prepended when the path does not start with a key", "leading placeholder step is not `if … (.[0] | type) != \"string\" then [null] + . end` (a string placeholder collides with a real key): "+cond+" then "+fw.JQStr(prefixIf.Then))
@@ -389,7 +429,12 @@ func c12Expr(r *fw.Run, jq *fw.JQ) {
 				c, ok2 := lit(items[2])
 				_, midLit := lit(items[1])
 				mid := fw.JQPipeline(items[1])
-				midOK := !midLit && len(mid) == 1 && (c12IsIdentity(mid[0]) || fw.JQIsCall(mid[0], "_ansi_if", 2) != nil)
+				midOK := !midLit && len(mid) >= 1
+				for _, m := range mid {
+					if !(c12IsIdentity(m) || fw.JQIsCall(m, "_ansi_if", 2) != nil || fw.JQIsCall(m, "tostring", 0) != nil || fw.JQIsCall(m, "tojson", 0) != nil) {
+						midOK = false
+					}
+				}
 				okNum = ok1 && ok2 && o == "[" && c == "]" && midOK
 			}
 			ru.Check(okNum, "_path_to_expr:index", file, "a number n is emitted as [ n ]", "number arm does not emit \"[\", the number itself, \"]\" in this order: "+fw.JQStr(numIf.Then))
@@ -466,7 +511,38 @@ func c12Expr(r *fw.Run, jq *fw.JQ) {
 	if d0 := jq.Def(file, "_path_to_expr", 0); d0 == nil {
 		ru.Undecided("_path_to_expr/0", file, "def _path_to_expr/0 not found")
 	} else {
-		ru.Check(fw.JQIsCall(d0.Def.Body, "_path_to_expr", 1) != nil, "_path_to_expr/0", file, "calls _path_to_expr/1", "_path_to_expr/0 does not call _path_to_expr/1")
+		c0 := fw.JQIsCall(d0.Def.Body, "_path_to_expr", 1)
+		ru.Check(c0 != nil, "_path_to_expr/0", file, "calls _path_to_expr/1", "_path_to_expr/0 does not call _path_to_expr/1")
+		if c0 != nil {
+			arg := fw.JQStr(c12Unparen(c0.Args[0]))
+			ru.Check(arg == "null" || arg == "{}", "_path_to_expr/0:plain", file, "asks for an undecorated expression (no options)", "_path_to_expr/0 passes options "+arg+": colour escape sequences end up in the expression expr_to_path has to parse")
+		}
+	}
+	// _ansi_if is the identity when no colour is asked for
+	if d := jq.Def("pkg/interp/ansi.jq", "_ansi_if", 2); d == nil || len(d.Def.Args) != 2 {
+		ru.Undecided("_ansi_if", "pkg/interp/ansi.jq", "def _ansi_if/2 not found")
+	} else {
+		b := c12Unparen(d.Def.Body)
+		good := b.Term != nil && b.Left == nil && b.Term.Type == gojq.TermTypeIf && b.Term.If != nil && len(b.Term.SuffixList) == 0
+		if good {
+			i := b.Term.If
+			good = fw.JQStr(c12Unparen(i.Cond)) == d.Def.Args[0]+".color" && len(i.Elif) == 0 && (i.Else == nil || c12IsIdentity(i.Else))
+		}
+		ru.Check(good, "_ansi_if", "pkg/interp/ansi.jq", "without $opts.color the input passes unchanged", "_ansi_if($opts; $name) is not `if $opts.color then … end` with the input unchanged otherwise: every component of an undecorated path expression passes through it")
+	}
+	// the type tests the component split rests on
+	for _, w := range [][2]string{{"_is_number", "number"}, {"_is_string", "string"}} {
+		d := jq.Def(file, w[0], 0)
+		if d == nil {
+			ru.Undecided("def:"+w[0], file, "def "+w[0]+"/0 not found")
+			continue
+		}
+		b := c12Unparen(d.Def.Body)
+		tn, isConst := "", false
+		if b.Op == gojq.OpEq && b.Left != nil && b.Right != nil && fw.JQIsCall(b.Left, "type", 0) != nil {
+			tn, isConst = fw.JQConstString(c12Unparen(b.Right))
+		}
+		ru.Check(isConst && tn == w[1], "def:"+w[0], file, "type == \""+w[1]+"\"", w[0]+" is "+fw.JQStr(d.Def.Body)+", expected type == \""+w[1]+"\": keys and indexes are told apart by it")
 	}
 	// _expr_to_path
 	if d := jq.Def(file, "_expr_to_path", 0); d == nil {
@@ -521,4 +597,43 @@ func c12Expr(r *fw.Run, jq *fw.JQ) {
 		}
 		ru.Check(fw.JQIsCall(d.Def.Body, w[1], 0) != nil, "def:"+w[0], "pkg/interp/funcs.jq", "calls "+w[1], w[0]+" is "+fw.JQStr(d.Def.Body)+", expected "+w[1])
 	}
+}
+
+// c12HeadNotString: q is `(.[0] | type) != "string"` or `.[0] | _is_string | not`.
+func c12HeadNotString(q *gojq.Query) bool {
+	q = c12Unparen(q)
+	if q == nil {
+		return false
+	}
+	head := func(x *gojq.Query) bool { return fw.JQStr(c12Unparen(x)) == ".[0]" }
+	if q.Op == gojq.OpNe && q.Left != nil && q.Right != nil {
+		l, r := q.Left, q.Right
+		if _, ok := fw.JQConstString(c12Unparen(l)); ok {
+			l, r = r, l
+		}
+		s, ok := fw.JQConstString(c12Unparen(r))
+		pl := fw.JQPipeline(l)
+		return ok && s == "string" && len(pl) == 2 && head(pl[0]) && fw.JQIsCall(pl[1], "type", 0) != nil
+	}
+	pl := fw.JQPipeline(q)
+	return len(pl) == 3 && head(pl[0]) && fw.JQIsCall(pl[1], "_is_string", 0) != nil && fw.JQIsCall(pl[2], "not", 0) != nil
+}
+
+// c12EmptyPathTest: q is `length == 0` or `. == []`.
+func c12EmptyPathTest(q *gojq.Query) bool {
+	q = c12Unparen(q)
+	if q == nil || q.Op != gojq.OpEq || q.Left == nil || q.Right == nil {
+		return false
+	}
+	l, r := c12Unparen(q.Left), c12Unparen(q.Right)
+	for i := 0; i < 2; i++ {
+		if n, ok := fw.JQConstNumber(r); ok && n == "0" && fw.JQIsCall(l, "length", 0) != nil {
+			return true
+		}
+		if c12IsIdentity(l) && fw.JQStr(r) == "[]" {
+			return true
+		}
+		l, r = r, l
+	}
+	return false
 }
